@@ -176,7 +176,36 @@ impl PairCfg {
         c.enable_latching = latching;
         c.bind_ip = Some("127.0.0.1".into());
         c.disable_ipv6 = true;
-        match self.ice.as_str() {
+        // per-side ICE options: "full" | "liteA" | "liteB" | "tcp" | "udpmux" (answerer) and the combined forms
+        //   "udpmuxA" / "udpmuxB" / "udpmuxAB" / "liteA+udpmuxB" / "liteB+udpmuxA"
+        //   "tcpActive+tcp": the offerer has TCP enabled next to its UDP hosts, the answerer is TCP-only and listens
+        let ice = self.ice.as_str();
+        if ice.contains("udpmux") && ice != "udpmux" {
+            if ice.contains("lite") {
+                c.enable_ice_lite = (ice.starts_with("liteA") && side == "A") || (ice.starts_with("liteB") && side == "B");
+            }
+            let mux_here = ice.ends_with("udpmuxAB") || ice.ends_with(&format!("udpmux{side}"));
+            if mux_here {
+                c.ice_udp_mux = true;
+                c.ice_udp_mux_port = Some(mux_port);
+            }
+        }
+        if ice == "full+tcpOnlyListen" && side != self.offerer {
+            // (diagnostic only, outside Compatible: the offerer has ICE-TCP disabled, so there is no common transport)
+            c.ice_tcp_policy = IceTcpPolicy::Enabled;
+            c.ice_gather_udp_hosts = false;
+            c.tcp_port_range_start = Some(mux_port.max(20000));
+            c.tcp_port_range_end = Some(mux_port.max(20000).saturating_add(8));
+        }
+        if ice == "tcpActive+tcp" {
+            c.ice_tcp_policy = IceTcpPolicy::Enabled;
+            if side != self.offerer {
+                c.ice_gather_udp_hosts = false;
+                c.tcp_port_range_start = Some(mux_port);
+                c.tcp_port_range_end = Some(mux_port.saturating_add(8));
+            }
+        }
+        match ice {
             "liteA" => c.enable_ice_lite = side == "A",
             "liteB" => c.enable_ice_lite = side == "B",
             "tcp" => {
@@ -579,12 +608,14 @@ impl Pair {
     /// `handle_b`: B's internal tasks run on that runtime (see `Side::new_on`).
     pub fn new_on(cfg: &PairCfg, pump_a: bool, pump_b: bool, handle_b: Option<tokio::runtime::Handle>) -> Self {
         let mux_port = match cfg.ice.as_str() {
-            "udpmux" => free_udp_port(),
-            "tcp" => free_tcp_port(),
+            "tcp" | "tcpActive+tcp" => free_tcp_port(),
+            x if x.contains("udpmux") => free_udp_port().min(65000),
             _ => 0,
         };
+        // with a mux socket on both sides each side needs a free port of its own
+        let port_b = if cfg.ice.contains("udpmuxAB") { free_udp_port().min(65000) } else { mux_port };
         let a = Arc::new(Side::new("A", cfg, mux_port));
-        let b = Arc::new(Side::new_on("B", cfg, mux_port, handle_b));
+        let b = Arc::new(Side::new_on("B", cfg, port_b, handle_b));
         if pump_a {
             a.start_event_pump();
         }
